@@ -53,6 +53,13 @@ type Scenario struct {
 	Readers   int      `json:"readers,omitempty"` // tasks issuing Query(*,[*]) a few times
 	Latency   []string `json:"latency,omitempty"`
 	LatPerNs  int64    `json:"lat_period_ns,omitempty"`
+	// LatWin (C15): the cache is built with latency windows (Latency, multiples
+	// of LatPerNs) and the metadata refreshes are issued by the target's own
+	// stream task ("refresh" ops in the stream, one target only), so that what
+	// the cache feeds into the latency statistics can be judged: every exported
+	// minimum / maximum is a latency some post-sync update of that target
+	// really had.
+	LatWin bool `json:"lat_win,omitempty"`
 	// Second phase, after the streams are done: lifecycle calls raced on the
 	// same targets - one resetter task per target (Resets[target] calls of
 	// Reset) against one admin task that removes and re-adds targets. These
@@ -391,6 +398,23 @@ func (H) Generate(rng *simrt.Rand, prop, tier string) (any, simrt.Config) {
 		creep = sc.Opts.FutureNs
 	}
 	sc.Streams = GenStreamsC(rng, u, prop, lifecycle, resetOnly, small, share, 4+rng.Intn(26), creep)
+	if prop == "C15" && len(sc.Targets) == 1 && rng.Chance(0.5) {
+		sc.LatWin = true
+		sc.LatPerNs = int64(4 + rng.Intn(12))
+		sc.Latency = []string{fmt.Sprintf("%dns", sc.LatPerNs*int64(1+rng.Intn(2))), fmt.Sprintf("%dns", sc.LatPerNs*int64(3+rng.Intn(3)))}
+		// sprinkle refreshes (and a few more syncs) into the stream
+		var ops []Op
+		for _, op := range sc.Streams[0] {
+			ops = append(ops, op)
+			if rng.Chance(0.3) {
+				ops = append(ops, Op{K: "refresh"})
+			}
+			if rng.Chance(0.08) {
+				ops = append(ops, Op{K: "sync"})
+			}
+		}
+		sc.Streams[0] = append(ops, Op{K: "refresh"})
+	}
 	// clock task
 	if sc.ClockMode != "frozen" || rng.Chance(0.5) {
 		v := sc.Clock0
@@ -411,7 +435,7 @@ func (H) Generate(rng *simrt.Rand, prop, tier string) (any, simrt.Config) {
 			sc.Clock = append(sc.Clock, Op{K: "clk", V: v})
 		}
 	}
-	if prop == "C15" || prop == "C12" {
+	if (prop == "C15" || prop == "C12") && !sc.LatWin {
 		nref := 1 + rng.Intn(6)
 		if prop == "C15" && rng.Chance(0.5) {
 			nref = 6 + rng.Intn(12) // a refresher that keeps running next to the streams' lifecycle calls
@@ -622,6 +646,7 @@ type opRec struct {
 	hasTarget bool
 	meta      metaSnap
 	postUpd   string // after remove: result class of an update to the removed target
+	lat       map[string]int64 // refresh op (LatWin): exported latency statistics, "<type>/<name>" -> value
 }
 
 func classify(err error) string {
@@ -735,6 +760,14 @@ func (H) Execute(x *common.Exec, s any) {
 	if !sc.Opts.EventDriven {
 		opts = append(opts, cache.DisableEventDrivenEmulation())
 	}
+	if sc.LatWin {
+		o, err := cache.WithLatencyWindows(sc.Latency, time.Duration(sc.LatPerNs))
+		if err != nil || o == nil {
+			x.Violate(x.Prop+"/setup", "latency windows %v period %d: %v", sc.Latency, sc.LatPerNs, err)
+			return
+		}
+		opts = append(opts, o)
+	}
 	w.c = cache.New(sc.Targets, opts...)
 	w.c.SetClient(func(l *ctree.Leaf) {
 		n, ok := l.Value().(*pb.Notification)
@@ -785,6 +818,8 @@ func (H) Execute(x *common.Exec, s any) {
 					w.c.Connect(target)
 				case "connerr":
 					w.c.ConnectError(target, errors.New("dial failed"))
+				case "refresh":
+					w.c.UpdateMetadata()
 				}
 				r.ret = simrt.Stamp()
 				r.feedTo = len(w.feeds[me])
@@ -793,6 +828,19 @@ func (H) Execute(x *common.Exec, s any) {
 					r.hasTarget = w.c.HasTarget(target)
 					r.after, r.afterErr = snapshotTarget(w.c, target)
 					r.meta = snapshotMeta(w.c, target)
+					if sc.LatWin && op.K == "refresh" {
+						if md := w.c.Metadata()[target]; md != nil {
+							r.lat = map[string]int64{}
+							for _, win := range w.c.LatencyWindows() {
+								for _, typ := range []latency.StatType{latency.Avg, latency.Max, latency.Min} {
+									name := latency.MetadataName(win, typ)
+									if v, err := md.GetInt(name); err == nil {
+										r.lat[typ.String()+"/"+name] = v
+									}
+								}
+							}
+						}
+					}
 				})
 				if op.K == "remove" {
 					probe := &pb.Notification{Timestamp: 1 << 40, Prefix: &pb.Path{Target: target}, Update: []*pb.Update{{Path: &pb.Path{Elem: []*pb.PathElem{{Name: "zz"}}}, Val: &pb.TypedValue{Value: &pb.TypedValue_IntVal{IntVal: 1}}}}}
@@ -1121,6 +1169,7 @@ targets:
 			return sb.String()
 		}
 		synced, connected := false, false
+		latCands := map[int64]bool{}
 		resetSeen := false
 		for k, r := range w.recs[i] {
 			if r.op.K == "reset" {
@@ -1136,6 +1185,55 @@ targets:
 					connected = true
 				case "reset", "remove":
 					synced, connected = false, false
+				}
+			}
+			if sc.LatWin && exists {
+				switch r.op.K {
+				case "upd":
+					// every clock reading taken during an update of a synced target
+					// is a candidate for the reading its latency was measured with
+					if synced && r.noti != nil {
+						for _, rd := range r.nows {
+							latCands[rd-r.noti.Timestamp] = true
+						}
+					}
+				case "remove":
+					latCands = map[int64]bool{} // a re-added target starts with fresh statistics
+				case "refresh":
+					x.Probe("latency-export-judged-at-cache-level")
+					lo, hi := int64(1<<62), int64(-1<<62)
+					for v := range latCands {
+						lo, hi = min(lo, v), max(hi, v)
+					}
+					var names []string
+					for name := range r.lat {
+						names = append(names, name)
+					}
+					sort.Strings(names)
+					for _, name := range names {
+						v := r.lat[name]
+						if v == 0 {
+							continue // not exported
+						}
+						x.Oblige(1)
+						x.Probe("latency-statistic-exported-by-the-cache-judged")
+						if len(latCands) == 0 {
+							x.Violate("C15/latency-exported-without-post-sync-update", "target %s op #%d: %s = %d exported although no update has been accepted from the target while it was synced\n%s", tg, k, name, v, hist(k))
+							return
+						}
+						switch {
+						case strings.HasPrefix(name, "avg/"):
+							if v < lo-1 || v > hi+1 {
+								x.Violate("C15/latency-avg-outside-observed-latencies", "target %s op #%d: %s = %d, but every latency a post-sync update of this target can have had lies in [%d, %d]\n%s", tg, k, name, v, lo, hi, hist(k))
+								return
+							}
+						default:
+							if !latCands[v] {
+								x.Violate("C15/latency-extreme-not-an-observed-latency", "target %s op #%d: %s = %d is not the latency (collector clock reading - update timestamp) of any update accepted from this target while it was synced; candidates lie in [%d, %d]\n%s", tg, k, name, v, lo, hi, hist(k))
+								return
+							}
+						}
+					}
 				}
 			}
 			taskFeed := w.opFeed(i, r)
